@@ -1,4 +1,4 @@
 SPECIFICATION SpecF
-CONSTANTS NSync=3 MaxClock=1 RetentionEnabled=TRUE Fine=FALSE Variant="m_gap0"
+CONSTANTS NSync=3 MaxClock=1 RetentionEnabled=TRUE Fine=FALSE Variant="m_gap0" Fixes={}
 INVARIANTS NeverAhead NoSkip SidecarAfterApply Converges NoStallH ResumeAcceptedH ResumeAfterKillH
 CHECK_DEADLOCK FALSE
